@@ -33,6 +33,7 @@ from .errors import (
     JSTypeError,
     JSReferenceError,
     JSRangeError,
+    JSSyntaxError,
     MemoryLimitError,
     TimeLimitError,
 )
@@ -296,6 +297,9 @@ class VM:
         except JSRangeError as e:
             # Convert Python JSRangeError to JavaScript RangeError
             self._handle_python_exception("RangeError", str(e))
+        except JSSyntaxError as e:
+            # Raised by built-ins at run time (JSON.parse): a catchable SyntaxError
+            self._handle_python_exception("SyntaxError", str(e))
         except _ThrowSignal as signal:
             # A script exception crossed a native frame: dispatch it here
             self._throw(signal.value)
